@@ -155,7 +155,7 @@ def run_case(rs, ctx):
             npd = {"kind": "clusters", "n_clusters": int(rs.integers(5, 9)), "minibatch": bool(rs.integers(4) > 0)}
     lpd = gen.gen_lp(rs, lk, deterministic=True) if lk != "eg_explore" else {"kind": "eg", "epsilon": float(gen.pick(rs, [0.3, 1.0]))}
     cfg = {"arms": list(gen.LABELS[labels][:n_arms]), "labels": labels, "lp": lpd, "np": npd,
-           "reward_stress": int(rs.integers(6)) if (rs.integers(5) == 0 and not lk.startswith("lin")) else None,
+           "reward_stress": int(rs.integers(8)) if (rs.integers(5) == 0 and not lk.startswith("lin")) else None,
            "seed": int(rs.integers(10 ** 6)), "n_jobs": 1, "backend": None}
     nf = int(rs.integers(1, 4))
     sh = gen.Shadow(cfg, nf)
